@@ -160,6 +160,7 @@ func runC03(r *core.Run) {
 		}
 	}
 	validateTraces(r, "Trace_Exif", "Trace_Exif.cfg", "exif2.ifdReader", ops, obs, ts.lines, ts.owner)
+	bindingSelfTest(r, "Trace_Exif", "Trace_Exif.cfg", &ts, "val", 1, 2) // a value fetched 2 bytes off its place
 	runExifAlign(r)
 	r.Extra["entry_points"] = []string{"imagemeta.Decode", "imagemeta.DecodeTiff", "exif2.Parse", "tiff.ScanTiffHeader+ifdReader.DecodeTiff", "imagemeta.DecodeJPEG", "ifdReader.DecodeIfd"}
 	r.Assumptions = append(r.Assumptions,
